@@ -988,22 +988,28 @@ impl Interpreter {
 
         let result = self.run_vm_to_completion(vm);
 
-        // Restore environment and finalize exports if we used a module environment
-        if let (Some(saved), Some(module_env)) = (saved_env, module_env) {
-            self.env = saved;
+        if matches!(&result, Ok(StepResult::Complete(_)) | Err(_)) {
+            // Restore environment and finalize exports if we used a module environment
+            if let (Some(saved), Some(module_env)) = (saved_env, module_env) {
+                self.env = saved;
 
-            // If execution completed successfully, store the main module exports
-            if let Ok(StepResult::Complete(_)) = &result
-                && let Some(ref path) = module_path
-            {
-                self.finalize_module_exports(path.clone(), module_env.cheap_clone());
-            }
+                // If execution completed successfully, store the main module exports
+                if let Ok(StepResult::Complete(_)) = &result
+                    && let Some(ref path) = module_path
+                {
+                    self.finalize_module_exports(path.clone(), module_env.cheap_clone());
+                }
 
-            // Once the run is over the module environment is no longer a permanent root
-            if matches!(&result, Ok(StepResult::Complete(_)) | Err(_)) {
+                // Once the run is over the module environment is no longer a permanent root
                 self.unroot(&module_env);
                 self.active_module_env = None;
             }
+        } else {
+            // Suspended: the run goes on through step(), in the module environment,
+            // and is finalized there like a run started with prepare()
+            self.active_module_path = module_path;
+            self.active_saved_env = saved_env;
+            self.active_module_env = module_env;
         }
 
         match &result {
